@@ -11,19 +11,19 @@ _PROBE = "; generated code comes from api.Generate run at check time on two hand
 
 CLAIMED = {
     "C01": {
-        "text": "bounded: freshly generated executors (2 configurations quick, 7 thorough) executed symbolically with their goroutines; for 9 operation families with symbolic @skip/@include variables and resolver/directive outcomes in {value,null,error} (deviation budget 1 quick / 2 thorough) the data bytes and the multiset of error paths equal an independent reference implementation of the GraphQL execution algorithm",
+        "text": "bounded: freshly generated executors (2 configurations quick, 7 thorough) executed symbolically with their goroutines; for 14 operation families (incl. lists of scalars) with symbolic @skip/@include variables and resolver/directive outcomes in {value,null,error} (deviation budget 1 quick / 2 thorough) the data bytes and the multiset of error paths equal an independent reference implementation of the GraphQL execution algorithm; one genuine deviation (error path of a null scalar-list element) is recorded as a known finding",
         "design_ref": "DESIGN.md section 4, C01", "note": _N + _PROBE, "technique": _T,
     },
     "C04": {
-        "text": "bounded fault enumeration decided by the solver-driven explorer: {error, panic} at every resolver/directive position of the families (single faults quick, pairs thorough), on calling and spawned goroutines and list elements, worker_limit 0/1/2: response equals the reference with that position failed, recover hook once per panic, no panic escapes a goroutine",
+        "text": "bounded fault enumeration decided by the solver-driven explorer: {error, panic} at every resolver/directive position of the families (single faults quick, pairs thorough), on calling and spawned goroutines and list elements, worker_limit 0/1/2: response equals the reference with that position failed, recover hook once per panic, no panic escapes a goroutine; the same for faults inside and outside deferred groups of 7 @defer operations against a defer-aware reference",
         "design_ref": "DESIGN.md section 4, C04", "note": _N + _PROBE, "technique": _T,
     },
     "C05": {
-        "text": "bounded: list fan-out (3+2 elements) with the context cancelled at 9 points x worker_limit 0/1/2 - the join terminates (deadlock = every task blocked is a violation) and no task survives; 7 @defer families consumed for one payload then cancelled - no task left blocked",
+        "text": "bounded: list fan-out (3+2 elements) with the context cancelled at 9 points x worker_limit 0/1/2 - the join terminates (deadlock = every task blocked is a violation) and no task survives; 7 @defer families consumed for one payload then cancelled - no task left blocked; drained under cancellation at 7 points; 10 @defer operations with failing / null positions drained without cancellation (the response function must end the sequence)",
         "design_ref": "DESIGN.md section 4, C05", "note": _N + _PROBE + "; real context.WithCancel and x/sync/semaphore interpreted from source", "technique": _T + "; deadlock/leak detection by the deterministic task scheduler",
     },
     "C11": {
-        "text": "bounded: wsConnection.init over 15 first-frame kinds x 6 payloads x 4 init functions x 2 subprotocols; subscribe and its goroutine over executor verdicts x 0..2 payloads x panic step x subscription error; per-id frame grammar, deregistration, close callback once, no overlapping Send",
+        "text": "bounded: wsConnection.init over 15 first-frame kinds x 6 payloads x 4 init functions x 2 subprotocols; subscribe and its goroutine over executor verdicts x 0..2 payloads x panic step x subscription error; per-id frame grammar, deregistration, close callback once, no overlapping Send; the reader loop on every client script of <=2 (3) frames over a 9-frame alphabet with long-lived operations; run() with keep-alive / pong-only / ping-pong timers ticking at any scheduling point and server-context cancellation; init timeout",
         "design_ref": "DESIGN.md section 4, C11", "note": _N + "; gorilla *websocket.Conn methods are name-intercepted stubs under the engine, native replays use a real loopback connection; unbounded scripts, duplicate ids and read-deadline timing are outside the bound", "technique": _T,
     },
     "C12": {
@@ -31,7 +31,7 @@ CLAIMED = {
         "design_ref": "DESIGN.md section 4, C12", "note": _N + "; ticker modelled as a daemon task; TCP chunking and client disconnects are outside the bound", "technique": _T + "; schedule exploration with explicit preemption points",
     },
     "C13": {
-        "text": "bounded: 7 @defer families x symbolic if: variables x outcome deviations x every completion order of groups; arrival-order merge equals a defer-aware reference, delivery rules (path delivered before, hasNext, once per (path,label), termination); two genuine defects are recorded as known findings",
+        "text": "bounded: 10 @defer families x symbolic if: variables x outcome deviations x every completion order of groups; arrival-order merge equals a defer-aware reference, delivery rules (path delivered before, hasNext, once per (path,label), termination); two genuine defects are recorded as known findings",
         "design_ref": "DESIGN.md section 4, C13", "note": _N + _PROBE, "technique": _T + "; schedule exploration, gated native replay of completion orders",
     },
     "C16": {
@@ -51,7 +51,7 @@ CLAIMED = {
         "design_ref": "DESIGN.md section 4, C02", "note": _N + _PROBE + "; options that change resolver signatures (nullable_input_omittable, struct_fields_always_pointers) are outside the bound", "technique": _T,
     },
     "C03": {
-        "text": "bounded: real Executor.CreateOperationContext/parseQuery/DispatchOperation with the real gqlparser interpreted, over a 12-request corpus x symbolic mutator verdicts x cache states x suggestion setting; hook order over all lists of <=3 extensions from 5 hook subsets; the solver decides every branch and assertion inside these bounds",
+        "text": "bounded: real Executor.CreateOperationContext/parseQuery/DispatchOperation with the real gqlparser interpreted, over a 12-request corpus x symbolic mutator verdicts x cache states x suggestion setting; hook order over all lists of <=3 extensions from 5 hook subsets; request histories through one Server and its POST transport ending in each of 10 requests that must be rejected; the solver decides every branch and assertion inside these bounds",
         "design_ref": "DESIGN.md section 4, C03", "note": _N, "technique": _T,
     },
     "C07": {
@@ -63,11 +63,11 @@ CLAIMED = {
         "design_ref": "DESIGN.md section 4, C08", "note": _N, "technique": _T,
     },
     "C09": {
-        "text": "bounded: Server.ServeHTTP -> GET/POST/GRAPHQL/UrlEncodedForm transports -> real Executor and gqlparser (interpreted) with an ExecutableSchema fake, over 10 documents x operationName x 9 Accept headers x 4 ResponseHeaders settings, malformed-request corpus, unsupported requests; status, Content-Type, JSON body, 'GET only queries', 'exactly the named operation' asserted on a ResponseWriter fake",
+        "text": "bounded: Server.ServeHTTP -> GET/POST/GRAPHQL/UrlEncodedForm transports -> real Executor and gqlparser (interpreted) with an ExecutableSchema fake, over 10 documents x operationName x 9 Accept headers x 4 ResponseHeaders settings, malformed-request corpus, unsupported requests; status, Content-Type, JSON body, 'GET only queries', 'exactly the named operation' asserted on a ResponseWriter fake; also with the document supplied by an operation-parameter mutator (APQ hash-only requests) and for two-request sequences",
         "design_ref": "DESIGN.md section 4, C09", "note": _N, "technique": _T,
     },
     "C10": {
-        "text": "bounded: AddUpload over variables trees of depth <=2 x corpus paths; bytesReader from an arbitrary valid state with full-width offsets",
+        "text": "bounded: AddUpload over variables trees of depth <=2 x corpus paths; bytesReader from an arbitrary valid state with full-width offsets; malformed bodies on every HTTP transport; MultipartForm.Do over 12 part layouts x spill x over-limit (with and without Content-Length) x OS faults with multipart/os/http dependencies as name-intercepted stubs",
         "design_ref": "DESIGN.md section 4, C10", "note": _N, "technique": _T,
     },
     "C15": {
